@@ -7,7 +7,7 @@ CFG = {
     "level_text": ("seeded exploration of part-transfer sessions: the real pub chunk sender talks to the real sub.SyncPart receiver state machine over an in-memory "
                    "stream on which each request/response can be bit-flipped, truncated, dropped, duplicated, reordered or the stream cut; oracle: an install is byte-identical "
                    "to the sender's part or does not happen, a sender told 'success' implies exactly one install, a fault-free retry installs exactly once"),
-    "level_note": "trusted: the recording part handler stands for the engines' handlers (install = FinishSync, discard = Close); gRPC transport itself is replaced by the in-memory stream pair",
+    "level_note": "scenario cluster-stream is the stream counterpart of cluster-measure (liaison write queue, part sync to 1-3 data nodes, distributed query; element timestamps also exactly on day-segment boundaries); trusted: the recording part handler stands for the engines' handlers (install = FinishSync, discard = Close); gRPC transport itself is replaced by the in-memory stream pair",
     "budget": {"quick": 40, "thorough": 900},
     "rule": ("each seed draws chunk size (1 byte .. > part), 1-3 parts with 1-3 part types and 1-5 files of boundary sizes (0,1,chunk-1,chunk,chunk+1,2*chunk..), receiver ordering knobs, "
              "and 0-2 wire faults at tape-chosen message positions; lockstep scenario = real sender+receiver, pipelined scenario = recorded real request sequence replayed with "
